@@ -101,6 +101,25 @@ def close_all():
     plt.close("all")
 
 
+def pre_query(obj):
+    """The caller may have asked the object anything before drawing it: what is drawn must not depend on that
+    (e.g. a memoised circle/sphere parameter surviving the drawing's own transformation of the object)."""
+    import warnings
+    with warnings.catch_warnings(), np.errstate(all="ignore"):
+        warnings.simplefilter("ignore")
+        for name, kw in (("circle_parameters", {}), ("circle_parameters", {"model": "halfspace"}),
+                         ("sphere_parameters", {}), ("sphere_parameters", {"model": "halfspace"}),
+                         ("ideal_endpoint_coords", {}), ("get_edges", {}), ("coords", {"model": "poincare"})):
+            f = getattr(obj, name, None)
+            if f is None:
+                continue
+            try:
+                f(**kw)
+            except Exception:
+                pass              # a query that is not defined for this object is not this check's business
+    return obj
+
+
 def kpoint(k):
     from geometry_tools import hyperbolic
     return hyperbolic.Point(np.array(k, dtype=float), model="klein")
@@ -363,7 +382,7 @@ def case_polygons(case):
                 continue
             poly = hyperbolic.Polygon(kpoint(K))
             before = all_artists()
-            d.draw_polygon(poly)
+            d.draw_polygon(pre_query(poly))
             t += 1
             vv, s = check_polygon_artists(model, tf, [K], new_artists(before), d, thr)
             for x in vv:
@@ -388,7 +407,7 @@ def case_polygon_composite(case):
         thr = threshold()
         poly = hyperbolic.Polygon(kpoint(np.array(Ks)))
         before = all_artists()
-        d.draw_polygon(poly)
+        d.draw_polygon(pre_query(poly))
         new = new_artists(before)
         v, s = check_polygon_composite(model, tf, Ks, new, d, thr)
     finally:
@@ -423,7 +442,7 @@ def case_polygon_composites(case):
                 continue
             poly = hyperbolic.Polygon(kpoint(np.array(Ks)))
             before = all_artists()
-            d.draw_polygon(poly)
+            d.draw_polygon(pre_query(poly))
             t += 1
             vv, s = check_polygon_composite(model, tf, Ks, new_artists(before), d, thr)
             for x in vv:
@@ -686,7 +705,7 @@ def case_geodesics(case):
             else:
                 obj = hyperbolic.Geodesic(kpoint(a), kpoint(b))
             before = all_artists()
-            d.draw_geodesic(obj)
+            d.draw_geodesic(pre_query(obj))
             t += 1
             vv, s = check_geodesic_artist(model, tf, kind, np.array(a, float), np.array(b, float), new_artists(before), d, thr)
             for x in vv:
@@ -716,7 +735,7 @@ def case_geodesic_composites(case):
             B = kpoint(np.array([b for _, b in members], dtype=float))
             obj = hyperbolic.Segment(A, B) if kind == "segment" else hyperbolic.Geodesic(A, B)
             before = all_artists()
-            d.draw_geodesic(obj)
+            d.draw_geodesic(pre_query(obj))
             t += 1
             pattern = "".join(geodesic_class(model, ka, kb, thr) for ka, kb in Kt)
             vv = check_geodesic_composite(model, tf, kind, members, new_artists(before), d, thr)
@@ -866,7 +885,7 @@ def case_horospheres(case):
                 continue
             obj = hyperbolic.Horosphere(kpoint(xi), kpoint(ref))
             before = all_artists()
-            d.draw_horosphere(obj)
+            d.draw_horosphere(pre_query(obj))
             t += 1
             vv, s = check_horosphere_artist(model, tf, np.array(xi, float), np.array(ref, float), new_artists(before), d, thr)
             for x in vv:
@@ -894,7 +913,7 @@ def case_horospheres_composite(case):
         obj = hyperbolic.Horosphere(hyperbolic.Point(np.array([xi for xi, _ in usable], dtype=float), model="klein"),
                                     hyperbolic.Point(np.array([ref for _, ref in usable], dtype=float), model="klein"))
         before = all_artists()
-        d.draw_horosphere(obj)
+        d.draw_horosphere(pre_query(obj))
         t += 1
         new = new_artists(before)
         want_circles, n_inf, n_sub = [], 0, 0
@@ -960,7 +979,7 @@ def case_horoarcs(case):
                 continue
             obj = hyperbolic.HorosphereArc(kpoint(xi), kpoint(ref), kpoint(q0))
             before = all_artists()
-            d.draw_horoarc(obj)
+            d.draw_horoarc(pre_query(obj))
             t += 1
             new = new_artists(before)
             vv = located(new, d, 1, "horoarc/" + model)
